@@ -3,7 +3,7 @@ use core::convert::TryInto;
 use tinyvec::ArrayVec;
 
 use crate::{
-    constants::{MAX_ALLOWED_HSS_LEVELS, MAX_HSS_PUBLIC_KEY_LENGTH},
+    constants::{lms_public_key_length, MAX_ALLOWED_HSS_LEVELS, MAX_HSS_PUBLIC_KEY_LENGTH},
     hasher::HashChain,
     hss::aux::{
         hss_expand_aux_data, hss_finalize_aux_data, hss_optimal_aux_level, hss_store_aux_marker,
@@ -210,6 +210,9 @@ impl<'a, H: HashChain> InMemoryHssPublicKey<'a, H> {
     pub fn new(data: &'a [u8]) -> Option<Self> {
         let mut index = 0;
 
+        if data.len() != 4 + lms_public_key_length(H::OUTPUT_SIZE as usize) {
+            return None;
+        }
         let level = u32::from_be_bytes(read_and_advance(data, 4, &mut index).try_into().unwrap());
 
         let public_key = InMemoryLmsPublicKey::new(&data[index..])?;
